@@ -342,6 +342,7 @@ void ScriptMaster::ExecuteRunning()
         uint64_t i = 0;
         while ((m_CurrentThread = (ScriptThread*)timerList.GetNextElement(i)))
         {
+            ++m_ExecutionDepth;
             try
             {
                 m_CurrentThread->Resume();
@@ -349,9 +350,11 @@ void ScriptMaster::ExecuteRunning()
             catch (...)
             {
                 // a resumed thread was interrupted: keep scheduling the others next time
+                --m_ExecutionDepth;
                 m_CurrentThread = nullptr;
                 throw;
             }
+            --m_ExecutionDepth;
         }
     }
 }
